@@ -622,7 +622,7 @@ class RoutingMonitor(Monitor):
             except Exception as e:  # noqa: BLE001
                 w.violate("C20.inactive_ack", f"status={int(st)} raises {type(e).__name__}", "")
         inf = pdu_info(ack)
-        if inf[1] != 4 or inf[2] != int(eof.condition_code) or inf[3] != 2 or int(ack.pdu_header.direction) != 1:
+        if inf[1] != 4 or inf[2] != int(eof.condition_code) or inf[3] != int(w.closed_status) or int(ack.pdu_header.direction) != 1:
             w.violate("C20.inactive_ack", f"{inf} dir={int(ack.pdu_header.direction)}", "")
         if tid_of(ack) != tid_of(eof):
             w.violate("C20.inactive_ack_tid", "", "")
